@@ -220,9 +220,9 @@ func c02Run(cs c02Case) (res c02Result) {
 		// production BuildUserspace decodes the bytes again only when compiledRules is missing; compare the decoder anyway
 		if c.matchType != consts.MatchType_Port && c.matchType != consts.MatchType_SourcePort {
 			d, e := compileRoutingMatch(rules[i])
-			if e != nil || d != c {
-				res.Stage, res.Err = "compile", fmt.Sprintf("compileRoutingMatch(rules[%d]) differs from compiledRules[%d]", i, i)
-				return res
+			if (e != nil || d != c) && res.PortCodec == "" {
+				// not fatal here: the kernel reads rules[i], the userspace matcher compiledRules[i]; the probes show the consequence
+				res.PortCodec = fmt.Sprintf("compileRoutingMatch(rules[%d]) differs from compiledRules[%d]", i, i)
 			}
 		}
 		res.Raw = append(res.Raw, c02Bytes(&rules[i]))
